@@ -154,6 +154,16 @@ for (_size, _ndof) in GRIDS:
         for k in range(ndof * nn):
             want = functools_sum([V.mul(bv[i], ys[e]) for e in range(nel) for i in range(en * ndof) if dofconn[e, i] == k])
             ctx.prove(f'nodal.scatter[{k}]', V.cmp('==', ny.data[k], want))
+        # the same with the two-row operator of (a): NodalOperation takes a (2, nel) field and is the transpose of the (2, nel)-valued ElementOperation
+        no2 = mk_module(it, 'NodalOperation', dom, to_carr(Bv))
+        Ys = [[ctx.sym(f'Y{r}_{e}', 'real') for e in range(nel)] for r in range(2)]
+        nY = it.call(it.getattr(no2, '_response'), [to_carr(Ys)])
+        ctx.prove('nodal.two_rows.shape', tuple(nY.shape) == (ndof * nn,))
+        ctx.prove('nodal.two_rows.is_transpose', V.cmp('==', functools_sum([V.mul(y.data[r, e], Ys[r][e]) for r in range(2) for e in range(nel)]),
+                                                       functools_sum([V.mul(a, b) for a, b in zip(us, nY.data)])))
+        for k in range(ndof * nn):
+            want = functools_sum([V.mul(Bv[r][i], Ys[r][e]) for r in range(2) for e in range(nel) for i in range(en * ndof) if dofconn[e, i] == k])
+            ctx.prove(f'nodal.two_rows.scatter[{k}]', V.cmp('==', nY.data[k], want))
         # a second response must not accumulate into the previous result
         ny2 = it.call(it.getattr(no, '_response'), [to_carr(ys)])
         ctx.prove('nodal.second_call_fresh', ny2 is not ny)
